@@ -341,6 +341,10 @@ def obligations(tier, seed):
     for t in (".rad50 <{V1}><{V1}><{V1}>\n", ".rad50 \"ABC\"<{V1}><47><47>\n", ".rad50 <{V1}>\n", ".rad50 /AB/<{V1}>/C/<{V2}>\n", ".word ^RAB + {V1}\n",
               ".ascii <{V1}><{V2}>\n", ".asciz \"a\"<{V1}>\"b\"\n", ".rad50 <code>\ncode = {V1}\n"):
         add("codes", t, vmax=70)
+    for t in (".word ^R\u212a\n", ".word ^R\u0130\n", ".word \u0669\n", ".word 1\u0669\n", "\u212a = 5\n.word \u212a\n", "la\u017ft: .word la\u017ft\n",
+              ".word ^D\u0669\n", ".word ^RAB\u212a\n", ".ascii \"\\x\u0669\u0669\"\n", ".word ^X\uff11\n", ".word \uff10x1f\n", "mov #\u0661, r\u0661\n",
+              "\u0131nc r0\n", ".\u017feven\n", "1\u0669: nop\nbr 1\u0669\n", ".rad50 /\u212a/\n"):
+        add("lookalike", t + ".word {V1}\n")
     add("huge", ".word 1 << 20000.\n")
     add("huge", "X9 = 1 _ \"ab\"\n.byte X9\n")
     for i, c in enumerate(CYCLES):
